@@ -166,6 +166,24 @@ func (expr *Expression) Evaluate(ctx *ExecutionContext) (*Value, *Error) {
 	}
 }
 
+// compareIntegers orders two values as integers (-1, 0, 1): exactly when both are
+// integers of any kind - Integer() saturates, an unsigned one above the largest int
+// would be neither below, equal to nor above another such one -, through Integer()
+// otherwise (text and whatever else Integer() reads a number from).
+func compareIntegers(a, b *Value) int {
+	if a.IsInteger() && b.IsInteger() {
+		return bigNumber(a).Cmp(bigNumber(b))
+	}
+	x, y := a.Integer(), b.Integer()
+	switch {
+	case x < y:
+		return -1
+	case x > y:
+		return 1
+	}
+	return 0
+}
+
 func (expr *relationalExpression) Evaluate(ctx *ExecutionContext) (*Value, *Error) {
 	v1, err := expr.expr1.Evaluate(ctx)
 	if err != nil {
@@ -185,7 +203,7 @@ func (expr *relationalExpression) Evaluate(ctx *ExecutionContext) (*Value, *Erro
 				tm1, tm2 := v1.Time(), v2.Time()
 				return AsValue(tm1.Before(tm2) || tm1.Equal(tm2)), nil
 			}
-			return AsValue(v1.Integer() <= v2.Integer()), nil
+			return AsValue(compareIntegers(v1, v2) <= 0), nil
 		case ">=":
 			if v1.IsFloat() || v2.IsFloat() {
 				return AsValue(v1.Float() >= v2.Float()), nil
@@ -194,7 +212,7 @@ func (expr *relationalExpression) Evaluate(ctx *ExecutionContext) (*Value, *Erro
 				tm1, tm2 := v1.Time(), v2.Time()
 				return AsValue(tm1.After(tm2) || tm1.Equal(tm2)), nil
 			}
-			return AsValue(v1.Integer() >= v2.Integer()), nil
+			return AsValue(compareIntegers(v1, v2) >= 0), nil
 		case "==":
 			return AsValue(v1.EqualValueTo(v2)), nil
 		case ">":
@@ -204,7 +222,7 @@ func (expr *relationalExpression) Evaluate(ctx *ExecutionContext) (*Value, *Erro
 			if v1.IsTime() && v2.IsTime() {
 				return AsValue(v1.Time().After(v2.Time())), nil
 			}
-			return AsValue(v1.Integer() > v2.Integer()), nil
+			return AsValue(compareIntegers(v1, v2) > 0), nil
 		case "<":
 			if v1.IsFloat() || v2.IsFloat() {
 				return AsValue(v1.Float() < v2.Float()), nil
@@ -212,7 +230,7 @@ func (expr *relationalExpression) Evaluate(ctx *ExecutionContext) (*Value, *Erro
 			if v1.IsTime() && v2.IsTime() {
 				return AsValue(v1.Time().Before(v2.Time())), nil
 			}
-			return AsValue(v1.Integer() < v2.Integer()), nil
+			return AsValue(compareIntegers(v1, v2) < 0), nil
 		case "!=", "<>":
 			return AsValue(!v1.EqualValueTo(v2)), nil
 		case "in":
